@@ -105,6 +105,13 @@ def cases(dt, rng):
         for k in (2, None, 6):
             out[f"svd_interface[{method},{k}]"] = lambda method=method, k=k: SV.svd_interface(Mx, method=method, n_eigenvecs=k, random_state=0)
     out["svd_interface[flip]"] = lambda: SV.svd_interface(Mx, n_eigenvecs=2, flip_sign=True, u_based_flip_sign=False)
+    Mw = arr(3, 6)
+    for ub in (True, False):     # sign resolution when U and V have different numbers of vectors (n_eigenvecs past min(shape)): the padded sign vector
+        for nm, Mq in (("tall", Mx), ("wide", Mw)):
+            for k in (5, None):
+                out[f"svd_interface[flip,u_based={ub},{nm},{k}]"] = lambda ub=ub, Mq=Mq, k=k: SV.svd_interface(Mq, n_eigenvecs=k, flip_sign=True, u_based_flip_sign=ub)
+        out[f"svd_flip[u_based={ub},more U columns]"] = lambda ub=ub: SV.svd_flip(arr(6, 5), arr(3, 4), u_based_decision=ub)
+        out[f"svd_flip[u_based={ub},more V rows]"] = lambda ub=ub: SV.svd_flip(arr(4, 3), arr(5, 6), u_based_decision=ub)
     if not cplx:
         out["svd_interface[non_negative]"] = lambda: SV.svd_interface(Mx, n_eigenvecs=2, non_negative=True)
         out["svd_interface[nndsvda]"] = lambda: SV.svd_interface(Mx, n_eigenvecs=2, non_negative="nndsvda")
